@@ -5,6 +5,7 @@ import (
 	"reflect"
 	"strings"
 	"sync"
+	"sync/atomic"
 	"time"
 
 	"github.com/fluffle/goirc/client"
@@ -60,8 +61,38 @@ func runC15(c *Ctx) {
 		r0 := rig.Rand(c.Seed, "C15", procs, salt, "sess", base)
 		nFg := 1 + r0.Intn(6)
 		nBg := r0.Intn(7)
+		if (base/perSession)%8 == 2 {
+			nFg, nBg = 1, 1 // lone handlers: one per set
+		}
 		total := nFg + nBg
-		s := NewSession(SessionOpts{Flood: true})
+		// the recovery function is one more party that is handed a line: in every other session it edits the line it
+		// is given (as one that redacts before logging would), and a foreground victim panics on every third event
+		var panicky int32
+		s := NewSession(SessionOpts{Flood: true, Mutate: func(cfg *client.Config) {
+			if (base/perSession)%2 == 1 {
+				cfg.Recover = func(_ *client.Conn, l *client.Line) {
+					if v := recover(); v != nil {
+						for i := range l.Args {
+							l.Args[i] = "RECOVERED"
+						}
+						for k := range l.Tags {
+							l.Tags[k] = "RECOVERED"
+						}
+						if l.Tags != nil {
+							l.Tags["new-recovered"] = "RECOVERED"
+						}
+						l.Nick, l.Ident, l.Host, l.Src, l.Cmd, l.Raw = "R", "R", "R", "R", "R", "R"
+					}
+				}
+			}
+		}})
+		if (base/perSession)%2 == 1 {
+			s.Conn.HandleFunc("CPY", func(_ *client.Conn, l *client.Line) {
+				if atomic.LoadInt32(&panicky) == 1 {
+					panic("c15 victim")
+				}
+			})
+		}
 
 		var mu sync.Mutex
 		var expect *client.Line
@@ -189,10 +220,19 @@ func runC15(c *Ctx) {
 				m.Spaces = nil
 			}
 			raw := m.Wire()
+			if !m.HasTags && r.Intn(5) == 0 {
+				// a tag section that is present but holds no tag: the parser yields an empty, non-nil tag map
+				raw = []string{"@ ", "@; ", "@;; "}[r.Intn(3)] + raw
+			}
 			c.J.Log("CASE %s %q", Case("ev", idx), raw)
 			exp := client.ParseLine(raw)
 			if exp == nil {
 				continue
+			}
+			if idx%3 == 0 {
+				atomic.StoreInt32(&panicky, 1)
+			} else {
+				atomic.StoreInt32(&panicky, 0)
 			}
 			mu.Lock()
 			expect = exp
